@@ -653,19 +653,26 @@ impl<'a> Run<'a> {
         self.evals += 1;
         let w = world();
         let now_ms = (secs(self.now) * 1000.0) as i64;
-        match self.drv.try_active_path() {
+        let now = self.now;
+        let slot = self.drv.try_active_path();
+        if let Some((p, _)) = &slot {
+            let seen = w.see(p).map_err(|e| Fail::new("returned-path-undecodable", e))?;
+            if seen.expiry_ms <= now_ms {
+                // liveness at hand-out is C06's business
+                self.labels.push("slot-holds-expired-path(C06)");
+                return Ok(());
+            }
+        }
+        let cp = no_panic("MultiPathManager::cached_path", || self.drv.cached_path(now))?;
+        match slot {
             Some((p, _)) => {
-                let seen = w.see(&p).map_err(|e| Fail::new("returned-path-undecodable", e))?;
-                if seen.expiry_ms <= now_ms {
-                    self.labels.push("slot-holds-expired-path(C06)");
-                    return Ok(());
-                }
-                let now = self.now;
-                let cp = no_panic("MultiPathManager::cached_path", || self.drv.cached_path(now))?;
-                ensure!(cp.as_ref() == Some(&p), "read-apis-disagree:cached_path", "cached_path differs from the active slot");
+                ensure!(cp.as_ref() == Some(&p), "read-apis-disagree:cached_path", "cached_path differs from the live path in the active slot");
                 Ok(())
             }
-            None => Ok(()),
+            None => {
+                ensure!(cp.is_none(), "read-apis-disagree:cached_path", "active slot empty but cached_path returned a path");
+                Ok(())
+            }
         }
     }
 }
@@ -839,7 +846,7 @@ fn case_strategy(max_steps: usize) -> impl Strategy<Value = Case> {
 }
 
 fn run_random(ctx: &Ctx) {
-    let n = ctx.tier.pick(120_000, 6_000_000);
+    let n = ctx.tier.pick(250_000, 6_000_000);
     let max = ctx.tier.pick(24, 50);
     ctx.run_prop("histories-random", n, || case_strategy(max), check);
 }
